@@ -45,6 +45,8 @@ def classify(f):
 def model_class(m):
     if m in ("ok", "ok-latent"):
         return "ok"
+    if m.startswith("ok:"):
+        return m        # Pratt cases: the number of statements InfixExpandArray returns is compared too
     if m == "err":
         return "err"
     if m.startswith("crash"):
@@ -54,11 +56,20 @@ def model_class(m):
 
 def main(argv):
     c = Check("C01", argv)
+    # the operator table and the guards of lowerRangeFor the Pratt model (Model/PrattShape.v) runs over are
+    # read from the repository's pratt.go on every run (translator of C06, shared generated file)
+    translator_break = None
+    rc_t, out_t = common.translate("infix", "InfixTable.v")
+    if rc_t != 0:
+        translator_break = {"kind": "translator-failed", "detail": out_t[-1500:],
+                            "note": "zygo/pratt.go no longer has the shape translator/cmd/infix understands; the previously generated table is used"}
+        c.log("TRANSLATOR FAILED:", out_t[-400:])
     c.proofs()
     c.trusted_base([
         "the panic search decides the runtime half: Go runtime, os/exec, the watchdog and rlimit settings of harness/cmd/c01",
         "pratt.go (infix expansion), macro execution and included files enter the generator model only as universally quantified oracles",
         "shape dump of the parse tree (harness/cmd/c01/worker.go dumpShape/symCode) reads symbol attributes through zygo/verif_c01.go",
+        "translator/cmd/infix (go/ast walk of zygo/pratt.go -> Generated/InfixTable.v: operator table, LeftBindingPower constants, guards of lowerRangeFor); token dump of the infix arrays (harness/cmd/c01/pratt.go prattTok)",
     ])
     c.assumptions += [
         "quick tier: the special probes run with the Go stack limit lowered to 8 MB (debug.SetMaxStack) so that unbounded Go recursion shows in seconds; the thorough tier replays them through cmd/zygo at the default 1 GB",
@@ -94,7 +105,7 @@ def main(argv):
             for f in failures][:60]
         mout = c.model(cases)
         if mout:
-            n = cmp_n = 0
+            n = cmp_n = pratt_n = 0
             texts = {}
             tpath = cases + ".texts"
             if os.path.exists(tpath):
@@ -109,12 +120,15 @@ def main(argv):
                 if mc is None:
                     continue
                 cmp_n += 1
+                if inp.startswith("Q"):
+                    pratt_n += 1
                 if mc == "crash" and impl == "crash":
                     refuted_seen = True
                 if impl != mc:
                     corr_fail.append({"text": texts.get(cid, ""), "shape": inp[:300], "implementation": impl, "model": model})
             c.coverage["tie_cases"] = n
             c.coverage["tie_compared"] = cmp_n
+            c.coverage["tie_pratt_token_lists_compared"] = pratt_n
             c.coverage["traces_validated_against_impl"] = cmp_n
     seen = 0
     # failures that repeat alone first; history-dependent ones (a later victim of a damaged interpreter) last
@@ -140,12 +154,29 @@ def main(argv):
             "replay": "bin/check C01 --replay <this file>  (runs `input` alone through every entry point in a child process)",
         })
     if not prop_fail:
-        if corr_fail:
+        crashed = [x for x in corr_fail if x["implementation"] == "crash" and x.get("text")]
+        if crashed:
+            # the real compile step (LoadExpressions / InfixExpandArray / the typed call) panicked on a text the
+            # model says cannot panic, and no entry point of the panic search reported it: the text is the input
+            x = crashed[0]
+            try:
+                import ast
+                text = ast.literal_eval(x["text"]) if x["text"].startswith('"') else x["text"]
+            except Exception:
+                text = x["text"]
+            c.violation({"kind": "the compile step panics on a text (model: %s)" % x["model"], "input": text,
+                         "shape": x["shape"], "observable": "PANIC", "entry_point": "compile-only tie",
+                         "count": len(crashed),
+                         "replay": "bin/check C01 --replay <this file>"})
+        elif corr_fail:
             c.violation({"kind": "correspondence: compile outcome of the implementation differs from the generator model (Model/GenShape.v)",
-                         "cases": corr_fail[:10], "count": len(corr_fail), "theorems": ["gen_total", "gen_no_latent"]},
+                         "cases": corr_fail[:10], "count": len(corr_fail),
+                         "theorems": ["gen_total", "gen_no_latent", "call_check_total", "assign_arrays_total", "pratt_total"]},
                         no_input=True, tag="corr")
         elif c.proof_break:
             c.violation({"kind": "proof obligation no longer checks", "detail": c.proof_break}, no_input=True, tag="proof")
+        elif translator_break:
+            c.violation(translator_break, no_input=True, tag="translator")
     c.coverage["property_failures"] = len(prop_fail)
     c.coverage["correspondence_failures"] = len(corr_fail)
     c.finish("proof")
